@@ -175,6 +175,7 @@ def _hyp_settings(n, steps=None):
 
 def run_stage_in_worker(stage: Stage, tier: str, seed: int, shard: int, nshards: int, scale: float, deadline):
     import hypothesis
+    import hypothesis.errors
 
     rec = Recorder(stage, tier, deadline)
     hyp_seed = seed * 1000 + shard
@@ -206,6 +207,13 @@ def run_stage_in_worker(stage: Stage, tier: str, seed: int, shard: int, nshards:
             rec.take_failure()
         except _StopStage:
             rec.take_failure()
+        except hypothesis.errors.Flaky:
+            # a violation that did occur but was not reproduced on re-execution (behaviour depends on process state,
+            # e.g. object addresses): it is reported, not swallowed as a harness problem
+            if rec.best_failure is None:
+                raise
+            rec.best_failure = rec.best_failure[:3] + (rec.best_failure[3] + " [not reproduced on immediate re-execution]",) + rec.best_failure[4:]
+            rec.take_failure()
     elif stage.kind == "machine":
         from hypothesis.stateful import run_state_machine_as_test
 
@@ -218,6 +226,11 @@ def run_stage_in_worker(stage: Stage, tier: str, seed: int, shard: int, nshards:
         except Violation:
             rec.take_failure()
         except _StopStage:
+            rec.take_failure()
+        except hypothesis.errors.Flaky:
+            if rec.best_failure is None:
+                raise
+            rec.best_failure = rec.best_failure[:3] + (rec.best_failure[3] + " [not reproduced on immediate re-execution]",) + rec.best_failure[4:]
             rec.take_failure()
     else:
         raise ValueError(stage.kind)
@@ -232,6 +245,7 @@ def worker_main(args):
         deadline = None
         if args.wall:
             deadline = time.monotonic() + args.wall
+        os.environ["VERIF_SHARD"] = str(args.shard)
         if args.shard == 0:
             out["corpus"] = replay_corpus(prop)
         for stage in prop.STAGES:
